@@ -294,30 +294,6 @@ func TestVerifC06Instances(t *testing.T) {
 }
 
 // views whose every operation is marked inline (used for a LoadLog that runs inside a yield point)
-type simInlineBackend struct{ *simBackend }
-
-func (b *simInlineBackend) Upload(ctx context.Context, key string, data []byte, opts *UploadOptions) error {
-	return b.simBackend.Upload(simInlineCtx(ctx), key, data, opts)
-}
-func (b *simInlineBackend) Fetch(ctx context.Context, key string) ([]byte, error) {
-	return b.simBackend.Fetch(simInlineCtx(ctx), key)
-}
-func (b *simInlineBackend) Discard(ctx context.Context, key string) error {
-	return b.simBackend.Discard(simInlineCtx(ctx), key)
-}
-
-type simInlineLock struct{ *simLock }
-
-func (l *simInlineLock) Fetch(ctx context.Context, id [32]byte) (LockedCheckpoint, error) {
-	return l.simLock.Fetch(simInlineCtx(ctx), id)
-}
-func (l *simInlineLock) Replace(ctx context.Context, old LockedCheckpoint, new []byte) (LockedCheckpoint, error) {
-	return l.simLock.Replace(simInlineCtx(ctx), old, new)
-}
-func (l *simInlineLock) Create(ctx context.Context, id [32]byte, new []byte) error {
-	return l.simLock.Create(simInlineCtx(ctx), id, new)
-}
-
 // ---- C06 part 2: start-up states ----
 
 // c06Sign signs an arbitrary tree head with the given configuration (the
